@@ -3,7 +3,7 @@ import TPV.Model.CondWorld
 open TPV TPV.Proto TPV.CondExpr TPV.Cond
 
 /-! line protocol of C14: one history per line
-    `run <new|old> <dicts> <ops>`;  dict = many (name ufun);
+    `run <new|old> <dicts> <ops>`;  dict = many (name raw|wrapped ufun);
     op = `c cid dictRef space net resid params err red static fresh` | `e cid fresh`
     reply: one token per op (`-` constructed, loss, `err:…`, `none`) ` | ` tags of every user dict -/
 
@@ -71,7 +71,14 @@ def step (line : String) : String :=
     match o with
     | "run" => do
       let mode ← next
-      let dicts ← many (many (do let n ← next; let u ← ufun; pure (n, DEntry.raw u)))
+      let dicts ← many (many (do
+        let n ← next
+        let kind ← next
+        let u ← ufun
+        match kind with
+        | "raw" => pure (n, DEntry.raw u)          -- the user's plain callable (or constant tensor)
+        | "wrapped" => pure (n, DEntry.wrapped u)  -- the user handed over a UserFunction object
+        | t => throw s!"entry:{t}"))
       let ops ← many op
       let w : World Rat := World.init dicts
       let res := if mode == "old" then runOld w ops else runNew w ops
